@@ -70,6 +70,16 @@ class BloomSystem(System):
                         if prop == "C01" and s not in ("table", "fnv"):
                             d = depth - 1
                     cfgs.append(dict(n=n, p=p, strat=s, depth=d, seed=seed, m=m, k=k, cost=600 * 6 ** (d - 3)))
+        # scale-up ("corridor") configurations: ordinary, larger geometries (bit arrays of 60 bytes .. 6 kB, i.e. longer
+        # than any 32/64/4096-byte block) driven along a narrow event menu (add the next key, reload, one union)
+        big = ((50, 0.01), (100, 0.05), (200, 0.01)) + (((5000, 0.01),) if prop in ("C01", "C05", "C14") or tier == "thorough" else ())
+        for n, p in big:
+            m, k = _geom(n, p)
+            for s in ("cover", "fnv"):
+                small = n >= 1000  # a 6 kB array: a handful of states is enough to cross every block boundary
+                cfgs.append(dict(n=n, p=p, strat=s, depth=(5 if small else 12) if tier == "quick" else (8 if small else 18), seed=seed,
+                                 m=m, k=k, corridor=True, nkeys=(4 if small else 10) if tier == "quick" else (6 if small else 16),
+                                 cost=40000))
         if prop == "C06":
             cfgs = [c for c in cfgs if c["strat"] == "fnv"]  # the C reference implements the documented FNV-1a rule
         if seed:
@@ -78,7 +88,15 @@ class BloomSystem(System):
         return cfgs
 
     # ---- helpers
+    _corr = {}
+
     def _alpha(self, cfg):
+        if cfg.get("corridor"):
+            ck = (cfg["strat"], cfg["m"], cfg["k"], cfg["seed"], cfg["nkeys"])
+            if ck not in self._corr:
+                keys, hf = K.corridor_alphabet(cfg["strat"], cfg["m"], cfg["k"], cfg["seed"], cfg["nkeys"])
+                self._corr[ck] = (keys, hf, ["every_byte" if cfg["strat"] == "cover" else "random_positions"])
+            return self._corr[ck]
         return K.alphabet(cfg["strat"], cfg["m"], cfg["k"], cfg["seed"])
 
     _near_cache = {}
@@ -113,6 +131,17 @@ class BloomSystem(System):
 
     def events(self, cfg, st):
         keys, _, _ = self._alpha(cfg)
+        if cfg.get("corridor"):
+            nxt = [i for i in range(len(keys) - 1) if i not in st.model["keys"]]
+            evs = [("add", nxt[0])] if nxt else []
+            if len(nxt) > 1 and len(st.model["keys"]) % 4 == 1:
+                evs.append(("add_alt2", nxt[0], nxt[1]))
+            evs += [("reload", ch) for ch in ("bytes", "hex", "file")]
+            if "union" not in st.model["via"]:
+                evs.append(("union", "other"))
+            if st.model["keys"]:
+                evs.append(("clear",))
+            return evs
         evs = [("add", i) for i in range(len(keys))]
         # the *_alt interface: hashes computed up front for two keys, then inserted (answers must be independent lists);
         # and a hash list longer than number_hashes (only the first number_hashes values count)
